@@ -434,8 +434,10 @@ impl<'a> Model<'a> {
                     Some(v) => MO::Val(v.clone()),
                     None => MO::Fail(vec![Class::Attribute]),
                 },
-                // a field of a bound non-map value: the statements only exclude `true`
-                MO::Val(_) => MO::Fail(vec![]),
+                // a field of a value that has no fields (null, number, string, list, ...) is an
+                // absent field: C08 lists "intermediate not a map" among the absence
+                // configurations next to "leaf missing" (DESIGN.md §12.3)
+                MO::Val(_) => MO::Fail(vec![Class::Attribute]),
                 f => f,
             }),
             E::Index(a, i) => {
